@@ -55,6 +55,7 @@ METHODS[("Record:Pool", "imap")] = _imap
 
 @method("Record:Pool", "__enter__")
 def pool_enter(ex, self, args, kw):
+    self.held = True            # referenced by the with-block (a generator frame keeps it for as long as it is iterated)
     return self
 
 
